@@ -564,6 +564,8 @@ double Find_Root(std::function<double(double)> func, double xLeft, double xRight
 			double f3 = func(x3);
 			// New point
 			double x4 = x3 + (x3 - x1) * Sign(f1 - f2) * f3 / sqrt(f3 * f3 - f1 * f2);
+			// In exact arithmetic x4 lies strictly inside the bracket. Rounding may push it past an end.
+			x4 = std::max(std::min(x1, x2), std::min(std::max(x1, x2), x4));
 			result	  = x4;
 			double f4 = func(x4);
 			if(f4 == 0.0)
